@@ -12,7 +12,7 @@ import PV.Prog.RenderLemmas
                                                       Expression mode and Module mode agree on one-expression lines (the
                                                       exceptions the grammar has are named, each with a witness);
                                                       Interactive mode = Module mode
-  (d) `elif_chain_spec`, `import_level_spec`, `annassign_simple_spec` (+ `annassign_bare_name`)
+  (d) `elif_chain_spec`, `import_level_spec`, `annassign_simple_spec` (+ `annassign_bare_name`, `annassign_paren_not_simple`)
                                                       the hand-written action code at program level
   (e) `render_parse_partial`                          printing a program of the fragment (`PV.Prog.Render`) in canonical
                                                       layout and parsing it gives the program back
@@ -280,10 +280,11 @@ example : parseProgram .module
     = some (.module [.importFrom (some [97]) [⟨[98], none⟩] (some 4)]) := by rfl
 
 
-/-- **`simple` of an annotated assignment** is exactly `target.is_name_expr()`: the flag says whether the TREE of
-    the target is a `Name` -/
+/-- **`simple` of an annotated assignment** is `target.is_name_expr() && target.start() == location` (/repo fix
+    "a parenthesised name is not a simple annotated-assignment target"): the TREE of the target is a `Name` and the
+    statement starts with a NAME token, i.e. the name is not written in parentheses -/
 theorem annassign_simple_spec (f : Nat) (ts : List Tok) (t a : Expr) (v : Option Expr) (s : Bool) (r : List Tok)
-    (h : parseExprStmt f ts = some (.annAssign t a v s, r)) : s = isName t := by
+    (h : parseExprStmt f ts = some (.annAssign t a v s, r)) : s = (isName t && startsName ts) := by
   cases f with
   | zero => simp [parseExprStmt] at h
   | succ f =>
@@ -292,6 +293,13 @@ theorem annassign_simple_spec (f : Nat) (ts : List Tok) (t a : Expr) (v : Option
     repeat' (first | split_any | (simp only [] at h))
     all_goals (try (simp_all; done))
     all_goals (simp only [Option.some.injEq, Prod.mk.injEq, Stmt.annAssign.injEq] at h; obtain ⟨⟨rfl, _, _, rfl⟩, _⟩ := h; rfl)
+
+/-- **a target written in parentheses is never `simple`** (the reference rule: `simple = 1` only for the
+    alternative `NAME ':' expression`); before the /repo fix `(x): int` had `simple = true` (former finding
+    `annassign-parenthesised-name-simple` of C01) -/
+theorem annassign_paren_not_simple (f : Nat) (ts : List Tok) (t a : Expr) (v : Option Expr) (s : Bool) (r : List Tok)
+    (h : parseExprStmt f (.op .lpar :: ts) = some (.annAssign t a v s, r)) : s = false := by
+  rw [annassign_simple_spec f _ t a v s r h]; simp [startsName]
 
 /-- **a bare NAME target gives `simple = true`**: whenever a statement that starts `NAME :` is read as an
     annotated assignment, its target is that name and `simple` is set -/
@@ -302,7 +310,7 @@ theorem annassign_bare_name (id : Ident) (r : List Tok) :
   refine ⟨n + 1, fun f hf s r' h => ?_⟩
   obtain ⟨f1, rfl⟩ : ∃ f1, f = f1 + 1 := ⟨f - 1, by omega⟩
   rw [parseExprStmt, hn f1 (by omega)] at h
-  simp only [isStarred, isName, Bool.false_eq_true, if_false] at h
+  simp only [isStarred, isName, startsName, Bool.and_self, Bool.false_eq_true, if_false] at h
   repeat' (first | split_any | (simp only [] at h))
   all_goals (try (simp_all; done))
   all_goals (simp only [Option.some.injEq, Prod.mk.injEq] at h; obtain ⟨rfl, _⟩ := h; exact ⟨_, _, rfl⟩)
@@ -314,11 +322,11 @@ example : parseProgram .module [.e (.name [120]), .e (.op .colon), .e (.name [10
 example : parseProgram .module [.e (.name [120]), .e (.op .dot), .e (.name [121]), .e (.op .colon), .e (.name [105]), .newline]
     = some (.module [.annAssign (.attribute (.name [120]) [121]) (.name [105]) none false]) := by rfl
 
-/-- `(x): int` — the code sets `simple` (CPython: 0; known finding `annassign-parenthesised-name-simple` of C01):
-    the flag is computed from the tree, in which the parentheses are gone -/
-theorem annassign_paren_name_simple :
+/-- `(x): int` — not simple, as in CPython (regression example for the repaired finding; non-vacuity of
+    `annassign_paren_not_simple`) -/
+theorem annassign_paren_name_not_simple :
     parseProgram .module [.e (.op .lpar), .e (.name [120]), .e (.op .rpar), .e (.op .colon), .e (.name [105]), .newline]
-    = some (.module [.annAssign (.name [120]) (.name [105]) none true]) := by rfl
+    = some (.module [.annAssign (.name [120]) (.name [105]) none false]) := by rfl
 
 
 /-! ## (e) print, then parse -/
